@@ -274,7 +274,7 @@ fn c12_row<const K: usize>() {
         let mut i = 0;
         while i < K {
             let (t, p) = (decl[i].0, decl[i].1);
-            assert!(t < num_states || t == STATE_END || t == STATE_SIGNAL, "C12: every accepted transition target is an existing state or a pseudo-state");
+            assert!(t < num_states || t == STATE_END || t == STATE_SIGNAL, "C12/C01: every accepted transition target is an existing state or a pseudo-state (a framework built from accepted machines never indexes a state that does not exist)");
             assert!(p > 0.0 && p <= 1.0, "C12: every accepted transition probability is a real number in (0,1] (NaN never accepted)");
             sum += p;
             i += 1;
